@@ -27,7 +27,7 @@ CHECKS = {
   category="fault_enumeration",
   text="Every run is one seed-determined execution of the real serialization code against a simulated transport: all writing entry points must agree byte for byte and deliver BinarySize bytes; decoding under any drawn fragmentation into fresh and previously used receivers must reproduce the object (own Equal + re-encoding) and consume exactly the bytes written, also back-to-back through one caller-owned reader; about one run in twelve enumerates every truncation offset and every sink-failure offset of an encoding (the crash-point dimension), the others inject drawn truncations, sink failures and header-field corruptions. A clean batch is evidence over the sampled schedules, not a proof; the offset sweeps are exhaustive for the sampled encodings.",
   design_ref="DESIGN.md section 4",
-  note="Trusted: Go runtime/bufio, the harness' simulated reader/sink, the object generators (random residues, not cryptographically meaningful keys). Corruption positions are found format-independently (small little-endian words, 0/1 bytes); for encodings containing map keys the 'accepted but shorter' sub-check is skipped (a collided key is not a length/flag field). Allocation bound 1 GiB. The catalog (about 50 types) includes JSON entry points, parameter literals, the bootstrapping key bundle and vectors longer than the decoder's growth step.",
+  note="Trusted: Go runtime/bufio, the harness' simulated reader/sink, the object generators (random residues, not cryptographically meaningful keys). Corruption positions are found format-independently (small little-endian words, 0/1 bytes); for encodings containing map keys the 'accepted but shorter' sub-check is skipped (a collided key is not a length/flag field). Allocation bound 1 GiB. The catalog (about 50 types) includes JSON entry points, parameter literals, the bootstrapping key bundle and vectors longer than the decoder's growth step. Later additions: the built bootstrapping.Parameters, one reused buffer.Buffer as transport of a whole stream, dirty receivers taken from the ring of half the degree.",
 ),
 "C09": dict(
   engine="histsim",
@@ -35,7 +35,7 @@ CHECKS = {
   category="exploration",
   text="Each run is a seed-determined history of 6-30 operations of the integer (standard and scale-invariant) or approximate evaluator on a pool of ciphertexts whose members are earlier results. Every step draws operand kinds (ciphertext, plaintext, vector, every scalar Go type incl. *big.Int/*big.Float), an aliasing pattern (out==op0, out==op1, op0==op1, all equal, or a dirty output of larger degree/level with arbitrary content and metadata) and whether all scratch memory reachable from the evaluator is overwritten with garbage first. The same call is executed on a freshly built twin with deep copies of the inputs and a zeroed distinct output of the natural shape. Oracles: every non-output argument is bit-identical after the call; the status (ok/error/panic) agrees (an aliased or mis-shaped output may be refused with an error); accepted calls produce the same ciphertext (level, metadata, polynomials compared canonically, trailing zero components ignored); evaluation keys unchanged; the embedded encoder after the history and poisoning agrees with a new one; encrypt/decrypt leave inputs intact and ignore the previous content and level of their output. Input-intactness of protocol methods is checked inside the C14-C16 workloads.",
   design_ref="DESIGN.md section 6",
-  note="Trusted: the harness' canonical comparison and deep-copy (CopyNew) of inputs. Scratch is found by field name (buff*/buf*/tmp*/pool*) and type; poisoned byte counts are reported. Operations documented as in place or as no-op (DropLevel, MatchScalesAndLevel, Rescale in scale-invariant mode) are modelled as documented. Besides the bgv/bfv/ckks evaluators the catalog holds the scheme-agnostic rlwe evaluator (with and without the NTT flag), rgsw external product, linear transformations, polynomial evaluation (single, vectors, sparse Chebyshev), hoisted rotations, 59 ring.Ring operations, key-generator calls into reused receivers and the plaintext-ring entry points of the integer encoder; values of the pool that are not arguments of a call must stay unchanged (bystanders). The thorough tier also draws (1 in 400) the bootstrapping evaluator and the DFT / modular-reduction evaluators under it (inputs intact, output aliasing an input).",
+  note="Trusted: the harness' canonical comparison and deep-copy (CopyNew) of inputs. Scratch is found by field name (buff*/buf*/tmp*/pool*) and type; poisoned byte counts are reported. Operations documented as in place or as no-op (DropLevel, MatchScalesAndLevel, Rescale in scale-invariant mode) are modelled as documented. Besides the bgv/bfv/ckks evaluators the catalog holds the scheme-agnostic rlwe evaluator (with and without the NTT flag), rgsw external product, linear transformations, polynomial evaluation (single, vectors, sparse Chebyshev), hoisted rotations, 59 ring.Ring operations, key-generator calls into reused receivers and the plaintext-ring entry points of the integer encoder; values of the pool that are not arguments of a call must stay unchanged (bystanders). The thorough tier also draws (1 in 400) the bootstrapping evaluator and the DFT / modular-reduction evaluators under it (inputs intact, output aliasing an input). Later additions: history kinds for ringqp / basis extension, ring packing, the ckks domain switcher, blind rotation; the circuits on composite minimax polynomials (comparison, inverse; one history in a hundred and a third of the heavy tier: arguments intact); big-number scalars at every precision; identity rotations; re-encryption from the ring of half the degree.",
 ),
 "C10": dict(
   engine="simsched",
